@@ -236,12 +236,20 @@ def full_runs(chk):
             chk.fail("the IFMR remnant mass never exceeds the progenitor's mass", case, dict(m=float(grid[i]), m_rem=float(mf[i]), n_bad=int(bad.size)),
                      all_in_one_increasing_concave_segment=seg_concave)
     nrun = 3 if chk.tier == "quick" else 20
-    for r in range(nrun):
+    nyoung = 2 if chk.tier == "quick" else 10
+    for r in range(nrun + nyoung):
         kw = dict(m_breaks=[0.1, 0.5, 1.0, 100], a_slopes=[rng.uniform(-1, 0), rng.uniform(-2, -1), rng.uniform(-3, -2)],
                   nbins=[rng.randint(2, 6), rng.randint(2, 6), rng.randint(5, 25)], FeH=rng.choice([-2.0, -1.0, 0.0]),
                   tout=rng.sample(sorted(rng.uniform(5, 13000) for _ in range(3)), 3) if r % 3 else sorted((rng.uniform(5, 13000) for _ in range(3)), reverse=True),
                   esc_rate=0, N0=10 ** rng.uniform(4, 6),
                   NS_ret=1.0, BH_ret_int=1.0, BH_ret_dyn=1.0)
+        if r >= nrun:
+            # young ages, while the turn-off mass is still inside the MOST MASSIVE stellar bin (coarse layouts: that bin's stars are much lighter
+            # than the remnants they leave), together with age 0: the total mass must not exceed the IMF's at any of them
+            kw["nbins"] = rng.choice([[1, 1, 2], [1, 1, 1], [2, 2, 3], [1, 2, 2]])
+            kw["tout"] = [0.0] + sorted(rng.uniform(1.9, 9.0) for _ in range(3)) + [rng.choice([30.0, 100.0])]
+            if r % 2:
+                kw["tout"] = kw["tout"][::-1]
         try:
             m = emf.EvolvedMF.from_powerlaw(**kw)
         except Exception as e:  # noqa
